@@ -519,6 +519,12 @@ def api_check(strings):
 #   ["define-as", s, name]       define_unit(name, s) where name is a SYMBOL that strings of the
 #                                 same history use: session state of another feature (the
 #                                 definitions) next to the parser; a string still reads as written
+#   ["undefine"]                  clear_unit_definitions(): afterwards every name is a plain symbol
+#                                 again (not a request of the Lean parse-session model, whose
+#                                 replies depend on the string alone: it is shown a no-op read)
+#   ["fresh"]  (first step only)  the history starts a NEW PROCESS: no reset / clear of the harness
+#                                 before it (run in a fork of a fresh interpreter; in a used
+#                                 process the harness resets: same meaning)
 ENTRIES = ["parse", "ctor", "setter", "array-ctor", "array-setter", "define", "repeated-ctor",
            "wrap-ctor", "xy-ctor-x", "xy-ctor-y", "xy-xunit", "xy-yunit", "define-as"]
 DEFINES = ("define", "define-as")
@@ -558,6 +564,11 @@ def session_expect(hist):
                 out.append(("ok", seen_through_defs(i)))
                 continue
             out.append(("reject",) if r is None else ("ok", X.sem(held[i])))
+        elif st[0] == "fresh":
+            out.append(("skip",))
+        elif st[0] == "undefine":
+            defs.clear()
+            out.append(("skip",))
         elif st[0] == "read" and hist[st[1]][0] in DEFINES:
             out.append(("skip",) if held.get(st[1]) is None else ("ok", seen_through_defs(st[1])))
         elif st[0] == "edit":
@@ -585,7 +596,10 @@ def session_run(q, hist):
     """the history on the real library -> per step ('ok', sem) | ('reject', class) | ('skip',)"""
     import warnings
     from qexpy.utils import units as U
-    X.reset(q)
+    if hist and list(hist[0]) == ["fresh"] and X.PROCESS["virgin"]:
+        X.PROCESS["virgin"] = False      # nothing is requested before the first step
+    else:
+        X.reset(q)
     held = {}
     out = []
 
@@ -649,6 +663,11 @@ def session_run(q, hist):
                         q.define_unit(_def_name(i), s)
                         held[i] = ("define", _def_name(i))
                     out.append(("ok", look(i)))
+                elif st[0] == "fresh":
+                    out.append(("skip",))
+                elif st[0] == "undefine":
+                    q.clear_unit_definitions()
+                    out.append(("skip",))
                 elif st[0] == "edit":
                     if st[1] not in held or held[st[1]][0] != "parse":
                         out.append(("skip",))
@@ -752,6 +771,10 @@ def _step_text(st):
                 "define": "define_unit(name, {!r})",
                 "define-as": "define_unit({!r}, {{!r}})".format(st[2] if len(st) > 2 else "?")
                 }[st[0]].format(st[1])
+    if st[0] == "fresh":
+        return "(new process)"
+    if st[0] == "undefine":
+        return "clear_unit_definitions()"
     if st[0] == "edit":
         if st[2] == "set":
             return "result_of_step_{}[{!r}] = {}".format(st[1], st[3], F(st[4], st[5]))
@@ -762,7 +785,8 @@ def _step_text(st):
 
 
 def session_model_steps(hist):
-    return [["parse", st[1]] if st[0] in ENTRIES else st for st in hist]
+    return [["parse", st[1]] if st[0] in ENTRIES else (["read", 0] if st[0] in ("undefine", "fresh") else st)
+            for st in hist]
 
 
 def session_classes(hist):
@@ -796,6 +820,12 @@ def session_classes(hist):
                 for t in seen:
                     rejected_since[t] = True
                 cl.add("rejected call")
+        elif st[0] == "fresh":
+            cl.add("history starts a new process (no reset before it)")
+        elif st[0] == "undefine":
+            if named:
+                cl.add("clear_unit_definitions() after a symbol was named, strings parsed again")
+            named = set()
         elif st[0] == "edit":
             edited.add(hist[st[1]][1])
             cl.add("edit:" + st[2])
@@ -838,7 +868,8 @@ def gen_session(rng, pool):
             words.append(rng.choice(vs))
     if bad and rng.random() < 0.7:
         words.append(rng.choice(bad))
-    hist = []
+    # a quarter of the histories start a process (executed in a fork of a fresh interpreter too)
+    hist = [["fresh"]] if rng.random() < 0.25 else []
     content = {}          # "parse" step with an accepted string -> what its caller holds now
 
     used = set()          # symbols in the expressions of the definitions made so far
@@ -908,6 +939,11 @@ def gen_session(rng, pool):
             edit(rng.choice(sorted(content)))
         else:
             hist.append(["read", rng.choice([i for i, st in enumerate(hist) if st[0] in ENTRIES])])
+    if with_names and rng.random() < 0.35:
+        hist.append(["undefine"])        # the names are plain symbols again
+        used.clear()
+        if rng.random() < 0.5:
+            name_a_symbol()              # ... and a symbol is named anew
     n = len(hist)
     for s in dict.fromkeys(words):
         entry("parse", s)
@@ -920,6 +956,10 @@ def gen_session(rng, pool):
 FIXED_SESSIONS = [
     [["define-as", "kg*m/s^2", "N"], ["parse", "N/m"], ["ctor", "N/m"], ["parse", "N*m"],
      ["define-as", "N*m", "J"], ["parse", "J/(kg*K)"], ["read", 0], ["read", 4], ["parse", "N/m"]],
+    [["fresh"], ["define-as", "kg*m/s^2", "N"], ["parse", "N/m"], ["undefine"], ["parse", "N/m"],
+     ["ctor", "kg*m/s^2"], ["read", 1], ["read", 5]],
+    [["define-as", "kg*m/s^2", "N"], ["ctor", "N/m"], ["undefine"], ["parse", "N/m"], ["read", 0],
+     ["read", 1], ["define-as", "kg*m^2/s^2", "N"], ["parse", "N/m"], ["read", 0], ["read", 1]],
     [["parse", "m/s"], ["edit", 0, "set", "s", -2, 1], ["parse", "m/s"], ["ctor", "m/s"],
      ["read", 0]],
     [["ctor", "kg*m/s^2"], ["parse", "kg*m/s^2"], ["edit", 1, "pop", "kg"], ["read", 0],
@@ -974,6 +1014,7 @@ def run_sessions(ctx, hists, ref=False, use_model=True):
     dist = collections.Counter()
     steps = 0
     room, confirmed, tried = None, 0, 0
+    fresh_room = None
     for h, m in zip(hists, replies):
         obs = session_run(q, h)
         steps += len(h)
@@ -983,6 +1024,15 @@ def run_sessions(ctx, hists, ref=False, use_model=True):
         for st in h:
             dist["session step: " + (st[0] if st[0] not in ENTRIES else "entry " + st[0])] += 1
         fs = session_judge(h, obs, m)
+        if not fs and h and list(h[0]) == ["fresh"]:
+            # the same history where it belongs: in a process in which nothing happened before
+            fresh_room = fresh_room or C.CleanRoom("props.c12")
+            ans = fresh_room.replay({"session": h})
+            dist["session histories executed in a new process"] += 1
+            if ans.get("fails") and ans.get("failures"):
+                failures.append(dict(ans["failures"][0], session=h, carries_history=True,
+                                     reproduces_alone=True))
+                continue
         for f in fs[:1]:
             if f.get("oracle") == "independent":
                 # confirm and shorten the history in a CLEAN ROOM (a new process per attempt):
@@ -1004,6 +1054,8 @@ def run_sessions(ctx, hists, ref=False, use_model=True):
             failures.append(f)
     if room:
         room.close()
+    if fresh_room:
+        fresh_room.close()
     return failures, dict(dist), steps
 
 
